@@ -56,6 +56,16 @@ Theorem C21_error_propagates : forall fuel compressed p st,
 Proof. exact program_ok_no_error. Qed.
 Print Assumptions C21_error_propagates.
 
+(* loops (@each / @for / @while): the error of iteration k is the result of the loop, whatever the
+   iterations after it would do (the seeded change C21-1 overwrote it with a later Ok) *)
+Theorem C21_loop_error_not_overwritten : forall n ms c cenv ctx st proto bs1 b bs2 st1 e,
+  check_body BControl proto = true ->
+  each_fold (fun b st => run_body (eval_item n ms c cenv ctx) b st) bs1 st = Ok st1 ->
+  run_body (eval_item n ms c cenv ctx) b st1 = Err e ->
+  eval_item (S n) ms c cenv ctx st (SEach proto (bs1 ++ b :: bs2)) = Err e.
+Proof. exact loop_error_not_overwritten. Qed.
+Print Assumptions C21_loop_error_not_overwritten.
+
 Example ns_free_example :
   program_ns_free (mkProg [[SRule [SPlain [97]] [SContent]]]
                           [SRule [SPlain [98]] [SMedia [112] [SDecl [120] [121]]; SInclude 0 (Some [SDecl [122] [119]])]]) = true.
